@@ -224,7 +224,8 @@ func (f *StreamForwarder) forwardAcks(wg *sync.WaitGroup) {
 		defer f.logger.Info("proxyStreamForwarder forwardAck finished")
 		f.shutdownChan.Shutdown()
 		var err error
-		closeSent := make(chan struct{})
+		// buffered: if CloseSend only returns after the timeout below, nobody is left to receive
+		closeSent := make(chan struct{}, 1)
 		go func() {
 			err = f.sourceStreamClient.CloseSend()
 			closeSent <- struct{}{}
